@@ -12,7 +12,11 @@
      (H1) stable ps k / stable_put ps name / stable_put_scalar ps : the write does not overwrite the field a
           [nm=v] selector on its own path matches on
      (H2) no_null_path ps n : no !!null node on the existing part of the path (kyaml drops such writes) *)
+(* NodeApi re-exports Yaml/Match.v, whose [child] / [get_at] (addresses) are shadowed by the imports below *)
+From KV Require Import Yaml.NodeApi Yaml.NodeApiProofs Yaml.Annot.
+From KV Require Yaml.Match Yaml.MatchAgreeProofs.
 From KV Require Import Yaml.Fns Yaml.FnsSpec Yaml.FnsProofs Yaml.JsonRef Yaml.JsonRefProofs.
+From KV Require Import Yaml.Elems Yaml.ElemsProofs.
 From KV Require Import Yaml.FieldSpec Yaml.FieldSpecSpec Yaml.FieldSpecProofs Yaml.FieldSpecGenProofs.
 
 (* ---------- lookup is pure ---------- *)
@@ -300,3 +304,267 @@ Theorem Gen_C14_fieldspec_tables_nonempty :
   (1 <=? List.length (filter (fun fs => existsb seg_hint (fs_segments fs)) gen_all_fs))%nat = true.
 Proof. exact gen_fs_nonempty. Qed.
 Print Assumptions Gen_C14_fieldspec_tables_nonempty.
+
+(* ==================== more of kyaml's node API (Yaml/Elems.v, Yaml/NodeApi.v) ==================== *)
+(* Elems.v: field_matcher = FieldMatcher{Name,Value,Create}; elem_matcher = ElementMatcher{Keys,Values,
+   MatchAnyValue,Create} (match_element / get_element_by_key); elem_append = ElementAppender; elem_setter =
+   ElementSetter{Keys,Values,Element}; k_tee = Tee; field_clearer = FieldClearer{Name,IfEmpty}; set_label = SetLabel.
+   NodeApi.v: raw_find = visitMappingNodeFields(content, fn, name) on a raw Content slice; field / fields /
+   visit_fields / elements / map_field_text (GetKind, GetApiVersion); get_field_value / get_string / get_slice. *)
+
+(* ---------- ElementMatcher is the path selector ---------- *)
+(* rn.Pipe(MatchElement(nm, v)) returns what rn.Pipe(Lookup("[nm=v]")) returns, on every node *)
+Theorem C14_match_element_is_selector :
+  forall (nonstr : string -> bool) (nm v : string) (n : node),
+    (do r <- match_element nonstr nm v n; Ok (snd r)) = lookup [PSel nm v] n.
+Proof. exact match_element_is_selector. Qed.
+Print Assumptions C14_match_element_is_selector.
+
+(* ElementMatcher with Create = the element PathGetter appends is LookupCreate("[nm=v]"): document and result *)
+Theorem C14_match_element_create_is_lookup_create :
+  forall (nonstr : string -> bool) (leaf : kind) (nm v : string) (n : node),
+    elem_matcher nonstr [nm] [v] false (Some (sel_new nm v)) n = lookup_create leaf [PSel nm v] n.
+Proof. exact match_element_create_is_lookup_create. Qed.
+Print Assumptions C14_match_element_create_is_lookup_create.
+
+(* GetElementByKey(k): the first mapping element that has the field k *)
+Theorem C14_get_element_by_key :
+  forall (nonstr : string -> bool) (k : string) (es : list node),
+    k <> "" -> get_element_by_key nonstr k (Seq es) = Ok (Seq es, first_sat (has_field k) es).
+Proof. exact get_element_by_key_spec. Qed.
+Print Assumptions C14_get_element_by_key.
+
+(* Get(name) is Lookup(name) *)
+Theorem C14_field_matcher_get_is_lookup :
+  forall (nonstr : string -> bool) (name : string) (x : node),
+    name <> "" -> (do r <- fm_get nonstr name x; Ok (snd r)) = lookup [PKey name] x.
+Proof. exact fm_get_is_lookup. Qed.
+Print Assumptions C14_field_matcher_get_is_lookup.
+
+(* FieldMatcher{Name, Create}: an absent field is created holding the value (and Get then finds it);
+   a present one is returned and the mapping is unchanged *)
+Theorem C14_field_matcher_create :
+  forall (nonstr : string -> bool) (name : string) (c : node) (kvs : list (string * node)),
+    name <> "" -> is_null c = false -> find_field name kvs = None ->
+    field_matcher nonstr name None (Some c) (Map kvs) =
+      Ok (Map (kvs ++ [(name, quote11 nonstr c)]), Some (quote11 nonstr c)) /\
+    fm_get nonstr name (Map (kvs ++ [(name, quote11 nonstr c)])) =
+      Ok (Map (kvs ++ [(name, quote11 nonstr c)]), Some (quote11 nonstr c)).
+Proof. exact field_matcher_create_absent. Qed.
+Print Assumptions C14_field_matcher_create.
+
+Theorem C14_field_matcher_create_present :
+  forall (nonstr : string -> bool) (name : string) (c : node) (kvs : list (string * node)) (f : node),
+    name <> "" -> find_field name kvs = Some f ->
+    field_matcher nonstr name None (Some c) (Map kvs) = Ok (Map kvs, Some f).
+Proof. exact field_matcher_create_present. Qed.
+Print Assumptions C14_field_matcher_create_present.
+
+(* ---------- ElementSetter on a keyed list: lens laws ----------
+   Hypotheses: one non-empty key k with a non-empty value v; [clean es]: the list has no null and no empty-mapping
+   element (ElementSetter silently drops those, see C14_elem_setter_unclean_refuted); the element written
+   answers to the key itself ([sel_match k v x], the analogue of H1). *)
+Theorem C14_elem_setter_put_get :
+  forall (nonstr : string -> bool) (k v : string) (x : node) (es : list node),
+    k <> "" -> v <> "" -> clean es = true -> sel_match k v x = true ->
+    exists es', elem_setter nonstr [k] [v] (Some x) (Seq es) = Ok (Seq es', Some x) /\
+                lookup [PSel k v] (Seq es') = Ok (Some x).
+Proof. exact elem_setter_put_get_thm. Qed.
+Print Assumptions C14_elem_setter_put_get.
+
+(* writing back the element found changes nothing — when it is the only one answering to the key *)
+Theorem C14_elem_setter_get_put :
+  forall (nonstr : string -> bool) (k v : string) (x : node) (es : list node),
+    k <> "" -> v <> "" -> clean es = true ->
+    lookup [PSel k v] (Seq es) = Ok (Some x) -> count_sat (sel_match k v) es = 1 ->
+    elem_setter nonstr [k] [v] (Some x) (Seq es) = Ok (Seq es, Some x).
+Proof. exact elem_setter_get_put_thm. Qed.
+Print Assumptions C14_elem_setter_get_put.
+
+(* the last write wins (hence idempotence) *)
+Theorem C14_elem_setter_put_put :
+  forall (nonstr : string -> bool) (k v : string) (x y : node) (es es1 : list node) (r : option node),
+    k <> "" -> v <> "" -> clean es = true -> sel_match k v x = true -> is_null y = false ->
+    elem_setter nonstr [k] [v] (Some x) (Seq es) = Ok (Seq es1, r) ->
+    elem_setter nonstr [k] [v] (Some y) (Seq es1) = elem_setter nonstr [k] [v] (Some y) (Seq es).
+Proof. exact elem_setter_put_put_thm. Qed.
+Print Assumptions C14_elem_setter_put_put.
+
+(* elements answering to another value of the key are untouched *)
+Theorem C14_elem_setter_frame :
+  forall (nonstr : string -> bool) (k v w : string) (x : node) (es es1 : list node) (r : option node),
+    k <> "" -> v <> "" -> v <> w -> clean es = true -> sel_match k v x = true ->
+    elem_setter nonstr [k] [v] (Some x) (Seq es) = Ok (Seq es1, r) ->
+    lookup [PSel k w] (Seq es1) = lookup [PSel k w] (Seq es).
+Proof. exact elem_setter_frame_thm. Qed.
+Print Assumptions C14_elem_setter_frame.
+
+(* Element == nil removes exactly the elements answering to the key *)
+Theorem C14_elem_setter_delete :
+  forall (nonstr : string -> bool) (k v : string) (es : list node),
+    k <> "" -> v <> "" -> clean es = true ->
+    exists es', elem_setter nonstr [k] [v] None (Seq es) = Ok (Seq es', None) /\
+                lookup [PSel k v] (Seq es') = Ok None /\
+                es' = filter (fun e => negb (sel_match k v e)) es.
+Proof. exact elem_setter_delete_thm. Qed.
+Print Assumptions C14_elem_setter_delete.
+
+(* [clean] cannot be dropped: unrelated empty-mapping and null elements disappear (3 elements in, 1 out) *)
+Theorem C14_elem_setter_unclean_refuted :
+  exists es x, sel_match "name" "b" x = true /\
+    elem_setter (fun _ => false) ["name"] ["b"] (Some x) (Seq es) = Ok (Seq [x], Some x) /\ List.length es = 3.
+Proof. exact elem_setter_drops_empty_elements. Qed.
+Print Assumptions C14_elem_setter_unclean_refuted.
+
+(* uniqueness cannot be dropped in get-put: every element answering to the key is replaced *)
+Theorem C14_elem_setter_get_put_duplicates_refuted :
+  exists es x, child (PSel "name" "b") (Seq es) = Some x /\ clean es = true /\
+    elem_setter (fun _ => false) ["name"] ["b"] (Some x) (Seq es) <> Ok (Seq es, Some x).
+Proof. exact elem_setter_replaces_all_matches. Qed.
+Print Assumptions C14_elem_setter_get_put_duplicates_refuted.
+
+(* ---------- ElementAppender ---------- *)
+Theorem C14_elem_append_get :
+  forall (e : node) (es : list node),
+    elem_append [e] (Seq es) = Ok (Seq (es ++ [e]), Some e) /\ lookup [PLast] (Seq (es ++ [e])) = Ok (Some e).
+Proof. exact elem_append_get. Qed.
+Print Assumptions C14_elem_append_get.
+
+Theorem C14_elem_append_frame :
+  forall (els es : list node) (i : nat) (x : node),
+    nth_error es i = Some x ->
+    exists r, elem_append els (Seq es) = Ok (Seq (es ++ els), r) /\ nth_error (es ++ els) i = Some x.
+Proof. exact elem_append_frame. Qed.
+Print Assumptions C14_elem_append_frame.
+
+(* ---------- FieldClearer, Tee, metadata setters ---------- *)
+Theorem C14_field_clearer_is_clear :
+  forall (name : string) (n : node), (do r <- field_clearer name false n; Ok (fst r)) = clear_field name n.
+Proof. exact field_clearer_is_clear_field. Qed.
+Print Assumptions C14_field_clearer_is_clear.
+
+(* FieldClearer{IfEmpty} agrees with the clearer of Yaml/Annot.v (w-c05) *)
+Theorem C14_field_clearer_if_empty_agrees :
+  forall (name : string) (n : node),
+    (do r <- field_clearer name true n; Ok (fst r)) = clear_field_if_empty name n.
+Proof. exact field_clearer_if_empty_agrees. Qed.
+Print Assumptions C14_field_clearer_if_empty_agrees.
+
+(* Tee(f) changes the document exactly as f does *)
+Theorem C14_tee :
+  forall (A : Type) (cr : option kind) (ps : list part) (k : node -> res (node * A)) (n : node),
+    (do r <- walk cr ps (k_tee k) n; Ok (fst r)) = (do r <- walk cr ps k n; Ok (fst r)).
+Proof. exact (@walk_tee). Qed.
+Print Assumptions C14_tee.
+
+(* SetLabel / SetAnnotation are put on metadata.labels / metadata.annotations (agreement with Yaml/Annot.v) *)
+Theorem C14_set_label_is_put :
+  forall (nonstr : string -> bool) (k v : string) (n : node),
+    (do r <- set_label nonstr k v n; Ok (fst r)) =
+    (do r <- put nonstr [PKey "metadata"; PKey "labels"] k (quoted_value v) n; Ok (fst r)).
+Proof. exact set_label_is_put. Qed.
+Print Assumptions C14_set_label_is_put.
+
+Theorem C14_set_annotation_is_put :
+  forall (nonstr : string -> bool) (k v : string) (n : node),
+    set_annotation nonstr k v n =
+    (do n1 <- clear_empty_annotations n;
+     do r <- put nonstr [PKey "metadata"; PKey "annotations"] k (quoted_value v) n1; Ok (fst r)).
+Proof. exact set_annotation_is_put. Qed.
+Print Assumptions C14_set_annotation_is_put.
+
+Theorem C14_set_label_get :
+  forall (nonstr : string -> bool) (k v : string) (n n' : node) (r : option node),
+    no_null_path [PKey "metadata"; PKey "labels"] n = true ->
+    set_label nonstr k v n = Ok (n', r) ->
+    exists s, lookup [PKey "metadata"; PKey "labels"; PKey k] n' = Ok (Some (with_style s (quoted_value v))).
+Proof. exact set_label_get. Qed.
+Print Assumptions C14_set_label_get.
+
+(* ---------- PathGetter and PathMatcher (Yaml/Match.v, w-c10) agree on plain field paths ---------- *)
+Theorem C14_lookup_pm_agree :
+  forall (parse : string -> option Regex.re) (enc : node -> string) (nonstr : string -> bool) (fuel : nat)
+         (path : list string),
+    forallb MatchAgreeProofs.plain_part path = true ->
+    forall n : node,
+      match lookup (map PKey path) n with
+      | Ok (Some x) => exists a, Match.pm parse enc nonstr None fuel path n = Ok (n, [Match.HAt a]) /\
+                                 Match.get_at a n = Some x
+      | Ok None => Match.pm parse enc nonstr None fuel path n = Ok (n, [])
+      | Err => Match.pm parse enc nonstr None fuel path n = Err
+      | _ => False
+      end.
+Proof. exact MatchAgreeProofs.lookup_pm_agree. Qed.
+Print Assumptions C14_lookup_pm_agree.
+
+(* the two models of utils.PathSplitter (Yaml/FieldSpec.v for "/", Yaml/Match.v for any one-byte delimiter) agree *)
+Theorem C14_path_splitter_agree :
+  forall path : string, path_splitter path = Match.path_splitter_c "/"%char path.
+Proof. exact MatchAgreeProofs.path_splitter_agree. Qed.
+Print Assumptions C14_path_splitter_agree.
+
+(* ---------- readers on the raw Content ---------- *)
+(* on a well-formed mapping the raw reader is find_field and never panics *)
+Theorem C14_raw_reader_wellformed :
+  forall (name : string) (kvs : list (string * node)), raw_find name (flatten kvs) = Ok (find_field name kvs).
+Proof. exact raw_find_flatten. Qed.
+Print Assumptions C14_raw_reader_wellformed.
+
+(* No reader of mapping fields panics, whatever the Content: a trailing entry without a partner is ignored
+   (repo fix 1d1d852; until then: finding C14/panic-visitFieldsWhileTrue-index-oob, theorems
+   C14_raw_reader_panic_refuted / _panic_exact / _no_panic_partial). *)
+Theorem C14_raw_reader_no_panic :
+  forall (name : string) (c : list node) (k : rawkind) (n : node),
+    raw_find name c <> Panic /\ raw_fields k c <> Panic /\ map_field_text name n <> Panic.
+Proof. exact (fun name c k n => conj (raw_find_no_panic name c) (conj (raw_fields_never_panics k c) (map_field_text_no_panic name n))). Qed.
+Print Assumptions C14_raw_reader_no_panic.
+
+(* the reader sees exactly the complete pairs of an odd Content *)
+Theorem C14_raw_reader_unpaired_entry :
+  forall (name : string) (kvs : list (string * node)) (x : node),
+    raw_find name (flatten kvs ++ [x]) = Ok (find_field name kvs).
+Proof. exact raw_find_unpaired. Qed.
+Print Assumptions C14_raw_reader_unpaired_entry.
+
+(* fieldspec.Filter on a non-sequence object is fs_apply (a sequence object is read pairwise by the GVK test) *)
+Theorem C14_fs_apply_raw_agrees :
+  forall ck ct sv fs obj, is_seq obj = false -> fs_apply_raw ck ct sv fs obj = fs_apply ck ct sv fs obj.
+Proof. exact fs_apply_raw_agrees. Qed.
+Print Assumptions C14_fs_apply_raw_agrees.
+
+(* VisitFields: every field once, in document order, with its own value — when no key is repeated *)
+Theorem C14_visit_fields_order :
+  forall kvs : list (string * node),
+    nodup_keys (keys kvs) = true ->
+    visit_fields (Map kvs) = Ok (map (fun kv => (fst kv, Some (snd kv))) kvs).
+Proof. exact visit_fields_nodup. Qed.
+Print Assumptions C14_visit_fields_order.
+
+(* ... with a repeated key the first value is visited twice and the second never *)
+Theorem C14_visit_fields_duplicate_refuted :
+  exists kvs, visit_fields (Map kvs) <> Ok (map (fun kv => (fst kv, Some (snd kv))) kvs).
+Proof. exact visit_fields_duplicate_key. Qed.
+Print Assumptions C14_visit_fields_duplicate_refuted.
+
+(* ---------- JSON refinement for the remaining writers ---------- *)
+Theorem C14_refines_json_clear :
+  forall (ps : list part) (name : string) (n n' : node),
+    no_null_path ps n = true -> clear_at ps name n = Ok (n', Some tt) ->
+    jclear ps name (to_json n) = Some (to_json n').
+Proof. exact clear_refines. Qed.
+Print Assumptions C14_refines_json_clear.
+
+Theorem C14_refines_json_put_scalar :
+  forall (ps : list part) (v n n' : node),
+    is_null v = false -> tagged v = true -> no_null_path ps n = true ->
+    put_scalar ps v n = Ok (n', Some tt) ->
+    jput_scalar ps (to_json v) (to_json n) = Some (to_json n').
+Proof. exact put_scalar_refines. Qed.
+Print Assumptions C14_refines_json_put_scalar.
+
+Theorem C14_refines_json_lookup_create :
+  forall (leaf : kind) (ps : list part) (n n' x : node),
+    no_null_path ps n = true -> lookup_create leaf ps n = Ok (n', Some x) ->
+    jupd (Some leaf) ps (fun j => Some j) (to_json n) = Some (to_json n').
+Proof. exact lookup_create_refines. Qed.
+Print Assumptions C14_refines_json_lookup_create.
